@@ -1130,8 +1130,8 @@ func (x *Explorer) endPath(end string, msg string) {
 	sh.Paths++
 	sh.PathsByEnd[end]++
 	if msg != "" && end != "ok" {
-		if len(msg) > 400 {
-			msg = msg[:400]
+		if len(msg) > 1600 {
+			msg = msg[:1600]
 		}
 		sh.EndMsgs[end+": "+msg]++
 	}
